@@ -287,12 +287,6 @@ pub open spec fn redirect_target(previous: &Url, location: Seq<char>) -> Option<
     }
 }
 pub open spec fn is_followed_status(c: u16) -> bool { c == 301 || c == 302 || c == 303 || c == 307 || c == 308 }
-/// R13: `matches!(status, StatusCode::A | StatusCode::B ..)` with the constants replaced by their numeric codes (table read
-/// from the http crate's source at generation time)
-#[verifier::external_body]
-pub fn vp_status_in_set(s: StatusCode, codes: &[u16]) -> (r: bool)
-    ensures r == codes@.contains(status_u16(s))
-{ codes.contains(&s.as_u16()) }
 pub open spec fn location_name() -> Seq<u8> { seq![108u8,111,99,97,116,105,111,110] }   // "location"
 /// `headers.get(http::header::LOCATION)`: first value of the field
 #[verifier::external_body]
